@@ -2,8 +2,12 @@
 //! One binary per property under src/bin/cNN.rs; shared generators/oracles live here.
 #![allow(clippy::too_many_arguments, clippy::type_complexity)]
 
+pub mod pragen;
+pub mod replay;
 pub mod rng;
 pub mod run;
+pub mod solverun;
+pub mod timeutil;
 
 pub use rng::{Rng, mix};
 pub use run::{PanicInfo, Run, Tier, clip, guard, par_for};
